@@ -192,15 +192,45 @@ def _family_class(repo: Repo, m, func: ast.AST, family_mod: str
     return None
 
 
+def _test_only_nodes(root: ast.AST) -> Set[int]:
+    """ids of Attribute nodes that are merely tested for truth / None."""
+    out: Set[int] = set()
+
+    def mark(e):
+        if isinstance(e, ast.Attribute):
+            out.add(id(e))
+        elif isinstance(e, ast.BoolOp):
+            for v in e.values:
+                mark(v)
+        elif isinstance(e, ast.UnaryOp) and isinstance(e.op, ast.Not):
+            mark(e.operand)
+        elif isinstance(e, ast.Compare) and len(e.ops) == 1 and isinstance(
+                e.ops[0], (ast.Is, ast.IsNot)) and isinstance(
+                e.comparators[0], ast.Constant) and \
+                e.comparators[0].value is None:
+            mark(e.left)
+
+    for n in ast.walk(root):
+        if isinstance(n, (ast.If, ast.While, ast.IfExp, ast.Assert)):
+            mark(n.test)
+        elif isinstance(n, ast.comprehension):
+            for c in n.ifs:
+                mark(c)
+    return out
+
+
 class FieldReads:
     """reads(f, param): attribute names read on a parameter, transitively
     through calls that pass the parameter on unchanged."""
 
     def __init__(self, repo: Repo, owner: Optional[ClassInfo] = None,
-                 depth: int = 5):
+                 depth: int = 5, value_only: bool = False):
         self.repo = repo
         self.owner = owner
         self.depth = depth
+        # value_only: a read that only tests the field for presence
+        # (`if node.x:`, `node.x is not None`) does not count
+        self.value_only = value_only
         self.memo: Dict[Tuple[str, str], Set[str]] = {}
 
     def resolve_callee(self, fn: FuncInfo, call: ast.Call
@@ -250,9 +280,12 @@ class FieldReads:
                 for t in n.targets:
                     if isinstance(t, ast.Name):
                         names.add(t.id)
+        skip = _test_only_nodes(fn.node) if self.value_only else set()
         for n in ast.walk(fn.node):
             if isinstance(n, ast.Attribute) and isinstance(n.value, ast.Name) \
                     and n.value.id in names:
+                if id(n) in skip:
+                    continue
                 out.add(n.attr)
             elif isinstance(n, ast.Call):
                 cn = dotted(n.func)
